@@ -192,6 +192,29 @@ def run(out: Outcome) -> None:
                 r = check_trace(out, cls, p, ops, const_value=c)
                 if r:
                     runners.append(r)
+    # thorough: default configurations on long streams (default warm-ups and windows are only reached after thousands of instances)
+    if thorough:
+        for cls in dets.CLASSES:
+            n = {"RDDM": 45000, "BOCD": 1200, "KSWIN": 4000}.get(cls, 20000)
+            vals, seg = [], 0
+            while len(vals) < n:
+                seg += 1
+                L = rng.randint(n // 12, n // 5)
+                if cls in dets.BINARY_ONLY or cls in dets.UNIT_INTERVAL:
+                    pr = rng.choice([0.05, 0.1, 0.2, 0.1, 0.3, 0.45])
+                    chunk = [1 if rng.random() < pr else 0 for _ in range(L)]
+                    if cls == "STEPD":
+                        chunk = [1 - v for v in chunk]
+                else:
+                    mu = rng.choice([0.0, 0.5, 2.0, 1.0])
+                    chunk = [abs(rng.gauss(mu, 1.0)) if cls == "ADWIN" else rng.gauss(mu, 1.0) for _ in range(L)]
+                vals += chunk
+            vals = vals[:n]
+            ops = [("u", v) for v in vals]
+            ops.insert(rng.randint(n // 2, n - 1), ("r",))
+            r = check_trace(out, cls, {}, ops, label="default-config-long:")
+            if r:
+                runners.append(r)
     # reproduce the listed findings' witnesses on the implementation (KNOWN-FINDING lines)
     if "KF-C01-1" in out.findings:
         runners.append(check_trace(out, "HDDMW", {"alpha_d": 0.3, "alpha_w": 0.6, "lambda_": 0.05, "min_num_instances": 30}, [("u", 1)] * 120, const_value=1))
